@@ -23,8 +23,9 @@ ID = "C25"
 LEVEL = "exploration"
 RULE = ("cases = pauli:(theta,phi) | double:(system) | union:(pair relation, base, soc-mode, axis) | "
         "assembly:(pair relation, base, SOC datum, axis, gauge); each case loops over the k alphabet and alpha_soc; "
-        "non-trivial = the case itself, except union/assembly cases with nspin=2 whose key also names the R-list relation "
-        "(the spin-down list differs from the spin-up one) and assembly cases whose SOC datum couples the two spins")
+        "non-trivial = the case itself (every case runs one of the four mechanisms on a distinct input); union cases with "
+        "nspin=2 and different spin-up/spin-down R lists are keyed by (relation, mode); the classes (relation, spin-coupling "
+        "or spin-diagonal datum, impulse or generic) seen by the assembly cases are listed in the coverage")
 ASSUMPTIONS = [
     "systems: in-memory zoo (num_wann 1-3 per spin; tric/hex lattices; R-sets shell1/shell2/lopsided), generic Hermitian Ham",
     "SOC data synthetic: complete Hermitian impulse basis constant in k (lands on R=0, valid at every k) and a generic smooth datum "
